@@ -33,18 +33,20 @@ def make_scenario(rng: Rng) -> dict:
     limit = rng.choice([1, 1, 2, 1000])
     nq = rng.choice([1, 1, 2, 3])
     actors = {f"act{i}": ("default" if i == 0 else f"q{i}") for i in range(nq)}
-    dcls = rng.choice(["zero", "short", "long"])
+    dcls = rng.choice(["zero", "short", "long", "long", "xlong"])
     jobs = []
     # result stores that work, fail always, or fail now and then: an execution whose result could not be stored is an
     # execution all the same (the processing task ends with the store's exception)
     store_mode = rng.choice(["none", "none", "ok", "fail_all", "fail_some"])
     for i in range(M + extra):
         a = rng.randrange(nq)
-        d = {"zero": 0, "short": 300, "long": rng.choice([200_000, 2 * S])}[dcls]
+        # ("xlong": still running well after the limit was reached — longer than the consumers' own 5 s finishing time)
+        d = {"zero": 0, "short": 300, "long": rng.choice([200_000, 2 * S]), "xlong": rng.choice([200_000, 7 * S])}[dcls]
         jobs.append({"id": f"m{i}", "name": f"act{a}", "queue": actors[f"act{a}"], "retries": rng.choice([0, 2]), "timeout": 10 * S,
                      "plan": [{"k": "ret", "dur": d}], "store_result": store_mode != "none" and rng.random() < 0.7})
     return {"jobs": jobs, "actors": actors, "tasks_limit": limit, "M": M, "converter": "basic", "policy": {"kind": "const", "us": 0},
-            "dcls": dcls, "consumer_latency_us": rng.choice([0, 0, 0, 5_000]), "horizon_s": 60.0, "store_mode": store_mode,
+            "dcls": dcls, "consumer_latency_us": rng.choice([0, 0, 0, 5_000]), "horizon_s": 60.0 if dcls != "xlong" else 200.0,
+            "store_mode": store_mode,
             "store_fail_all": store_mode == "fail_all",
             "store_fail_calls": [k for k in range(M + extra) if rng.random() < 0.5] if store_mode == "fail_some" else []}
 
